@@ -47,11 +47,12 @@ struct LVal : TrackedBase<TC_CALLBACK> {     // takes everything by value
 template <typename K, typename V> struct UserOrderedMap : std::map<K, V> {};
 template <typename K, typename V> struct UserHashedMap : std::unordered_map<K, V> {};
 
+struct PolRot0 { static const int rot = 0; };
 template <typename Mode, bool UserMap, bool Hashed> struct Pol;
-template <typename Mode> struct Pol<Mode, false, false> { using ArgumentPassingMode = Mode; using Threading = eventpp::SingleThreading; };
-template <typename Mode> struct Pol<Mode, false, true> { using ArgumentPassingMode = Mode; using Threading = eventpp::SingleThreading; };
-template <typename Mode> struct Pol<Mode, true, false> { using ArgumentPassingMode = Mode; using Threading = eventpp::SingleThreading; template <typename K, typename V> using Map = UserOrderedMap<K, V>; };
-template <typename Mode> struct Pol<Mode, true, true> { using ArgumentPassingMode = Mode; using Threading = eventpp::SingleThreading; template <typename K, typename V> using Map = UserHashedMap<K, V>; };
+template <typename Mode> struct Pol<Mode, false, false> : PolRot0 { using ArgumentPassingMode = Mode; using Threading = eventpp::SingleThreading; };
+template <typename Mode> struct Pol<Mode, false, true> : PolRot0 { using ArgumentPassingMode = Mode; using Threading = eventpp::SingleThreading; };
+template <typename Mode> struct Pol<Mode, true, false> : PolRot0 { using ArgumentPassingMode = Mode; using Threading = eventpp::SingleThreading; template <typename K, typename V> using Map = UserOrderedMap<K, V>; };
+template <typename Mode> struct Pol<Mode, true, true> : PolRot0 { using ArgumentPassingMode = Mode; using Threading = eventpp::SingleThreading; template <typename K, typename V> using Map = UserHashedMap<K, V>; };
 
 // getEvent policy that reads a field of the (only) argument; the field is one that a move clears
 template <typename K, bool UserMap, bool Hashed>
@@ -64,6 +65,31 @@ struct PolGetEvent : Pol<eventpp::ArgumentPassingIncludeEvent, UserMap, Hashed> 
 template <typename K, bool UserMap, bool Hashed>
 struct PolGetEventRef : Pol<eventpp::ArgumentPassingIncludeEvent, UserMap, Hashed> {
 	static const K & getEvent(const K & k, const Tracked &) { return k; }
+};
+
+// getEvent policy that MAPS the first argument to another event (key i -> key i+1 mod 3) and takes the rest of the
+// arguments generically, so it serves the include form getEvent(key, payload) and the exclude form
+// getEvent(event, key, payload) alike: a dispatcher that fell back to "the first argument is the event" would reach the
+// listeners of the wrong key
+template <typename K, typename Mode, bool UserMap, bool Hashed>
+struct PolGetEventRot : Pol<Mode, UserMap, Hashed> {
+	static const int rot = 1;
+	template <typename ...A> static K getEvent(const K & k, const A & ...) { return KeyOps<K>::make((KeyOps<K>::index(k) + 1) % 3); }
+};
+// the mapping as a policy written for the exclude form only: exactly (event, key, payload), callable with nothing shorter
+template <typename K, bool UserMap, bool Hashed>
+struct PolGetEventRotExcl : Pol<eventpp::ArgumentPassingExcludeEvent, UserMap, Hashed> {
+	static const int rot = 1;
+	static K getEvent(const K & ev, const K &, const Tracked &) { return KeyOps<K>::make((KeyOps<K>::index(ev) + 1) % 3); }
+};
+// the same mapping, returning a REFERENCE to a long-lived key object
+template <typename K, typename Mode, bool UserMap, bool Hashed>
+struct PolGetEventRotRef : Pol<Mode, UserMap, Hashed> {
+	static const int rot = 1;
+	template <typename ...A> static const K & getEvent(const K & k, const A & ...) {
+		static const K table[3] = {KeyOps<K>::make(0), KeyOps<K>::make(1), KeyOps<K>::make(2)};
+		return table[(KeyOps<K>::index(k) + 1) % 3];
+	}
 };
 
 enum Cat { C_LVALUE, C_CONST, C_PRVALUE, C_MOVE, C_KEY_PRVALUE_PAYLOAD_LVALUE, C_KEY_LVALUE_PAYLOAD_MOVE, NCAT };
@@ -151,19 +177,21 @@ struct Cell {
 	template <bool Excl>
 	void doDispatchForm(int ki, int cat, std::false_type) {
 		int pid = nextPayload++;
+		// the value passed as the event: the policy maps it to ki (identity unless the policy rotates)
+		const int raw = (ki + 3 - Policies::rot) % 3;
 		// in the exclude form the event is passed separately and the listeners get (otherKey, payload)
-		int shownKey = Excl ? (ki + 1) % 3 : ki;
-		K evLv = KeyOps<K>::make(ki); const K evClv = KeyOps<K>::make(ki);
+		int shownKey = Excl ? (ki + 1) % 3 : raw;
+		K evLv = KeyOps<K>::make(raw); const K evClv = KeyOps<K>::make(raw);
 		K k2Lv = KeyOps<K>::make(shownKey);
 		Tracked lv(pid); const Tracked clv(pid);
 		std::vector<Seen> seen; g_seen = &seen;
 		int pc = payloadIsMutableRef ? C_LVALUE : cat;
-		callKeyForms(cat, pc, ki, shownKey, pid, evLv, evClv, k2Lv, lv, clv, std::integral_constant<bool, Excl>());
+		callKeyForms(cat, pc, raw, shownKey, pid, evLv, evClv, k2Lv, lv, clv, std::integral_constant<bool, Excl>());
 		g_seen = nullptr;
 		this->check(seen, ki, pid, shownKey, Excl ? "dispatch(event, key, payload)" : "dispatch(key, payload)", cat);
 		bool payloadLvalueKept = (pc == C_LVALUE || pc == C_KEY_PRVALUE_PAYLOAD_LVALUE);
 		if(payloadLvalueKept && !lv.intact()) ctx.fail("caller-lvalue-modified", "the caller's payload lvalue was modified or moved from by dispatch");
-		if((cat == C_LVALUE || cat == C_KEY_LVALUE_PAYLOAD_MOVE) && KeyOps<K>::index(evLv) != ki) ctx.fail("caller-lvalue-modified", "the caller's key lvalue was modified or moved from by dispatch");
+		if((cat == C_LVALUE || cat == C_KEY_LVALUE_PAYLOAD_MOVE) && KeyOps<K>::index(evLv) != raw) ctx.fail("caller-lvalue-modified", "the caller's key lvalue was modified or moved from by dispatch");
 	}
 
 	void check(const std::vector<Seen> & seen, int ki, int pid, int shownKey, const char * form, int cat) {
@@ -259,7 +287,10 @@ static void addQueueFamily(bool full) {
 	addCell<Cell<K, const K &, const Tracked &, Pol<ArgumentPassingIncludeEvent, true, Hashed>, false, true> >(kn + "/key-const-ref/payload-const-ref/include/user-map", dq, dt);
 	addCell<Cell<K, K, Tracked, PolGetEvent<K, false, Hashed>, true, true> >(kn + "/getEvent-policy/payload-by-value/default-map", dq, dt);
 	addCell<Cell<K, K, Tracked, PolGetEventRef<K, false, Hashed>, false, true> >(kn + "/getEvent-returning-reference/key-by-value/payload-by-value/default-map", dq, dt);
+	addCell<Cell<K, K, const Tracked &, PolGetEventRotExcl<K, false, Hashed>, false, true> >(kn + "/getEvent-mapping/exclude/key-by-value/payload-const-ref/default-map", dq, dt);
 	if(!full) return;
+	addCell<Cell<K, const K &, Tracked, PolGetEventRot<K, ArgumentPassingAutoDetect, true, Hashed>, false, true> >(kn + "/getEvent-mapping/auto/key-const-ref/payload-by-value/user-map", dq, dt);
+	addCell<Cell<K, K, Tracked, PolGetEventRotRef<K, ArgumentPassingAutoDetect, false, Hashed>, false, true> >(kn + "/getEvent-mapping-returning-reference/auto/key-by-value/payload-by-value/default-map", dq, dt);
 	addCell<Cell<K, K, const Tracked &, Pol<ArgumentPassingExcludeEvent, false, Hashed>, false, true> >(kn + "/key-by-value/payload-const-ref/exclude/default-map", dq, dt);
 	addCell<Cell<K, const K &, Tracked, Pol<ArgumentPassingAutoDetect, true, Hashed>, false, true> >(kn + "/key-const-ref/payload-by-value/auto/user-map", dq, dt);
 	addCell<Cell<K, K, const Tracked &, PolGetEvent<K, true, Hashed>, true, true> >(kn + "/getEvent-policy/payload-const-ref/user-map", dq, dt);
@@ -276,7 +307,12 @@ static void addKeyFamily(bool full) {
 	addCell<Cell<K, const K &, Tracked, Pol<ArgumentPassingExcludeEvent, true, Hashed>, false> >(kn + "/key-const-ref/payload-by-value/exclude/user-map", dq, dt);
 	addCell<Cell<K, K, Tracked, PolGetEvent<K, false, Hashed>, true> >(kn + "/getEvent-policy/payload-by-value/default-map", dq, dt);
 	addCell<Cell<K, K, Tracked, PolGetEventRef<K, false, Hashed>, false> >(kn + "/getEvent-returning-reference/key-by-value/payload-by-value/default-map", dq, dt);
+	addCell<Cell<K, K, const Tracked &, PolGetEventRotExcl<K, false, Hashed>, false> >(kn + "/getEvent-mapping/exclude/key-by-value/payload-const-ref/default-map", dq, dt);
+	addCell<Cell<K, const K &, Tracked, PolGetEventRotRef<K, ArgumentPassingAutoDetect, true, Hashed>, false> >(kn + "/getEvent-mapping-returning-reference/auto/key-const-ref/payload-by-value/user-map", dq, dt);
 	if(!full) return;
+	addCell<Cell<K, const K &, Tracked, PolGetEventRot<K, ArgumentPassingAutoDetect, true, Hashed>, false> >(kn + "/getEvent-mapping/auto/key-const-ref/payload-by-value/user-map", dq, dt);
+	addCell<Cell<K, K, Tracked &, PolGetEventRot<K, ArgumentPassingIncludeEvent, false, Hashed>, false> >(kn + "/getEvent-mapping/include/key-by-value/payload-mutable-ref/default-map", dq, dt);
+	addCell<Cell<K, K, const Tracked &, PolGetEventRotRef<K, ArgumentPassingExcludeEvent, false, Hashed>, false> >(kn + "/getEvent-mapping-returning-reference/exclude/key-by-value/payload-const-ref/default-map", dq, dt);
 	addCell<Cell<K, K, Tracked &, Pol<ArgumentPassingAutoDetect, true, Hashed>, false> >(kn + "/key-by-value/payload-mutable-ref/auto/user-map", dq, dt);
 	addCell<Cell<K, const K &, const Tracked &, Pol<ArgumentPassingAutoDetect, false, Hashed>, false> >(kn + "/key-const-ref/payload-const-ref/auto/default-map", dq, dt);
 	addCell<Cell<K, const K &, Tracked &, Pol<ArgumentPassingIncludeEvent, true, Hashed>, false> >(kn + "/key-const-ref/payload-mutable-ref/include/user-map", dq, dt);
